@@ -82,6 +82,8 @@ def gen_case(rng, opts=None):
             "fkpolicy": opts.get("fkpolicy") or rng.choice(["disabled", "on_remove_event", "on_every_event"]),
             "remediation": opts.get("remediation") or "disabled",
             "cache": {"enable_compression": False, "backup_count": 0}}
+    if rng.random() < opts.get("p_schema_bump", 0.0) and npolls >= 2:
+        case["schema_bump"] = rng.randint(1, npolls - 1)
     return case
 
 
@@ -154,7 +156,19 @@ def produce_bus(case, wd):
     world["tables"] = {"src": {}}
     H.run_server(srv, 1)
     srv._initSyncRequested = True
-    for tables in case["polls"]:
+    bump = case.get("schema_bump")
+    for i, tables in enumerate(case["polls"]):
+        if bump is not None and i == bump:
+            # the server is restarted under a datamodel with one more attribute (always null, so no
+            # data event follows): it publishes a 'dataschema' event that a RUNNING client merges
+            dm2 = srvcase.datamodel_of(case["cfg"])
+            t0 = case["cfg"]["types"][0]["name"]
+            dm2[t0]["sources"]["src"]["attrsmapping"]["zzbump"] = "{{ None }}"
+            try:
+                srv._sock._cleanup()
+            except Exception:
+                pass
+            srv = H.start_server(wd + "/srv", H.server_config(wd + "/srv", dm2, ["src"]), world)
         world["tables"] = tables
         H.run_server(srv, 1)
     try:
@@ -493,10 +507,12 @@ def case_to_gallina(case, res, sessions=None):
         ws, q = ctx.gstate_obs(ob)
         calls = glist(ctx.gcall(c) for c in ob["calls"])
         ret = it.get("retention", case["retention"])
-        iters.append("(CIter {} {} {} {} {} {} {} {} {} {})".format(
+        skips = glist(gZ(o) for (o, ts, ev) in res["bus"]
+                      if o <= it["limit"] and ev["evcategory"] == "base" and ev["eventtype"] == "dataschema")
+        iters.append("(CIter {} {} {} {} {} {} {} {} {} {} {})".format(
             gZ(it["now"]), gbool(it.get("restart", False)), delivered, calls, glist(ws), q,
             gZ(ob["next"] if ob["next"] is not None else -1), gbool(ob["exc"] is not None), gZ(it["limit"]),
-            "None" if not ret else f"(Some {gZ(ret * DAY)})"))
+            "None" if not ret else f"(Some {gZ(ret * DAY)})", skips))
     # queue content (objects having entries) observed at every handler invocation
     rname = {l: r for r, l in ctx.lname_of.items()}
     pk_of = {t["name"]: t["pkey"] for t in case["cfg"]["types"]}
